@@ -29,7 +29,7 @@ class Cfg(object):
     """Configuration of one system: client side, server side(s), requests."""
 
     def __init__(self, c=None, s=None, reqs=None, answer="now", via="plain", resp_kind="ack", peerinfo=False,
-                 reorder=1, dupcap=1, label=None):
+                 reorder=1, dupcap=1, label=None, views=None, reannounce=None):
         self.c = side(**(c or {}))
         self.s = side(**(s or {}))
         self.reqs = list(reqs or [(0, 0)])      # (request payload length, response payload length) per request
@@ -40,27 +40,34 @@ class Cfg(object):
         self.reorder = reorder                  # how many younger frames may overtake the oldest
         self.dupcap = dupcap
         self.label = label
+        # what each side believes about the other when that differs from the truth (stale record / stale I-Am):
+        # {"c_of_s": {...side overrides...}, "s_of_c": {...}}
+        self.views = views or {}
+        # the server changes its capabilities and re-announces them at an explorer-chosen point: {...side overrides...}
+        self.reannounce = reannounce
 
     def key(self):
         return (tuple(sorted(self.c.items())), tuple(sorted(self.s.items())), tuple(self.reqs), self.answer, self.via,
-                self.resp_kind, self.peerinfo, self.reorder, self.dupcap)
+                self.resp_kind, self.peerinfo, self.reorder, self.dupcap, repr(sorted(self.views.items())),
+                repr(self.reannounce))
 
     def describe(self):
         def short(d):
             return {k: v for k, v in d.items() if DEFAULTS.get(k) != v}
         return {"client": short(self.c), "server": short(self.s), "reqs": self.reqs, "answer": self.answer,
-                "via": self.via, "resp_kind": self.resp_kind, "peerinfo": self.peerinfo}
+                "via": self.via, "resp_kind": self.resp_kind, "peerinfo": self.peerinfo, "views": self.views,
+                "reannounce": self.reannounce}
 
     def to_json(self):
         return {"c": self.c, "s": self.s, "reqs": [list(r) for r in self.reqs], "answer": self.answer, "via": self.via,
                 "resp_kind": self.resp_kind, "peerinfo": self.peerinfo, "reorder": self.reorder, "dupcap": self.dupcap,
-                "label": self.label}
+                "label": self.label, "views": self.views, "reannounce": self.reannounce}
 
     @classmethod
     def from_json(cls, d):
         return cls(c=d["c"], s=d["s"], reqs=[tuple(r) for r in d["reqs"]], answer=d["answer"], via=d["via"],
                    resp_kind=d["resp_kind"], peerinfo=d["peerinfo"], reorder=d.get("reorder", 1),
-                   dupcap=d.get("dupcap", 1), label=d.get("label"))
+                   dupcap=d.get("dupcap", 1), label=d.get("label"), views=d.get("views"), reannounce=d.get("reannounce"))
 
 
 def _device(name, ident, sd):
@@ -95,18 +102,24 @@ class AppSystem(object):
         self.events = []        # ("emit"| "conf" | "ind", ...) in causal order
         self.wire = Wire()
         self.net = CtlNetwork(self.wire, "lan")
-        cls = A.IOApp if cfg.via == "iocb" else A.PlainApp
+        cls = A.IOApp if cfg.via in ("iocb", "iocb-chain") else A.PlainApp
         self.client = cls(_device("client", 1, cfg.c), self.CLIENT_MAC, self.net, window=cfg.c["window"],
                           app_timeout=cfg.c["app_timeout"], events=self.events)
         self.server = A.PlainApp(_device("server", 2, cfg.s), self.SERVER_MAC, self.net, window=cfg.s["window"],
                                  app_timeout=cfg.s["app_timeout"], events=self.events)
         self.server.answer_mode = cfg.answer
         self.server.resp_kind = cfg.resp_kind
+        self.reannounced = False
         if cfg.peerinfo in (True, "record"):
-            prime_cache(self.client, _info_for(cfg.s, 2, Address(self.SERVER_MAC)))
-            prime_cache(self.server, _info_for(cfg.c, 1, Address(self.CLIENT_MAC)))
+            c_of_s = dict(cfg.s)
+            c_of_s.update(cfg.views.get("c_of_s", {}))
+            s_of_c = dict(cfg.c)
+            s_of_c.update(cfg.views.get("s_of_c", {}))
+            prime_cache(self.client, _info_for(c_of_s, 2, Address(self.SERVER_MAC)))
+            prime_cache(self.server, _info_for(s_of_c, 1, Address(self.CLIENT_MAC)))
+            self.events.append(("told", 0.0, str(self.SERVER_MAC), c_of_s["maxapdu"], c_of_s["seg"], c_of_s["maxsegs"]))
         self._hook_records()
-        self.submitted = []     # (service number, request)
+        self._submitted = []    # (service number, request)
         self.steps = 0
         self.trace = []         # labels of the choices taken
         self.faults = []        # (fault kind, class of the frame(s) hit) for failure signatures
@@ -122,12 +135,27 @@ class AppSystem(object):
             ev.append(("conf",) + client.confirmations[-1])
         client._record_confirmation = rec
 
+    @property
+    def submitted(self):
+        """(service number, request) of everything submitted so far, including requests the application submitted
+        from inside a completion callback"""
+        return self._submitted + [(r.serviceNumber, r) for r in getattr(self.client, "chain_submitted", [])]
+
     # ---- driving
     def announce(self):
         """Both devices broadcast an I-Am; the applications hand it to their DeviceInfoCache as the samples do."""
         from bacpypes.apdu import IAmRequest
         from bacpypes.pdu import LocalBroadcast
-        for app, sd in ((self.server, self.cfg.s), (self.client, self.cfg.c)):
+        for app, sd, view in ((self.server, self.cfg.s, "c_of_s"), (self.client, self.cfg.c, "s_of_c")):
+            sd = dict(sd)
+            sd.update(self.cfg.views.get(view, {}))
+            self._send_iam(app, sd)
+        self.announced = True
+
+    def _send_iam(self, app, sd):
+        from bacpypes.apdu import IAmRequest
+        from bacpypes.pdu import LocalBroadcast
+        if True:
             iam = IAmRequest(iAmDeviceIdentifier=app.localDevice.objectIdentifier, maxAPDULengthAccepted=sd["maxapdu"],
                              segmentationSupported=sd["seg"], vendorID=999)
             iam.pduDestination = LocalBroadcast()
@@ -140,8 +168,15 @@ class AppSystem(object):
             except Exception as err:
                 self.errors.append("iam:%s:%s" % (type(err).__name__, str(err)[:100]))
             vclock.settle()
-            self.wire.flush()
-        self.announced = True
+            # only the I-Am itself is delivered here (it is the newest frame); other traffic stays in flight
+            for i in range(len(self.wire.inflight) - 1, -1, -1):
+                fr = self.wire.inflight[i]
+                if fr.data[2:4] == bytes([0x10, 0x00]):
+                    self.wire.deliver(i)
+                    vclock.settle()
+                    break
+            if app is self.server:
+                self.events.append(("told", vclock.clock.now, str(self.SERVER_MAC), sd["maxapdu"], sd["seg"], None))
 
     def start(self):
         vclock.settle()
@@ -150,9 +185,13 @@ class AppSystem(object):
         for k, (req_len, resp_len) in enumerate(self.cfg.reqs):
             sn = k + 1
             self.server.resp_len_by_sn[sn] = resp_len
+            if self.cfg.via == "iocb-chain" and k > 0:
+                # submitted later, synchronously from the completion callback of the previous request
+                self.client.chain.append((Address(self.SERVER_MAC), req_len, sn))
+                continue
             try:
                 req = self.client.submit(Address(self.SERVER_MAC), req_len, service_number=sn)
-                self.submitted.append((sn, req))
+                self._submitted.append((sn, req))
             except Exception as err:
                 self.errors.append("submit:%s:%s" % (type(err).__name__, str(err)[:100]))
         self._settle()
@@ -169,6 +208,9 @@ class AppSystem(object):
         fl = self.wire.inflight
         held = self.server.held if self.cfg.answer == "hold" else []
         nd = vclock.next_due()
+        extra = []
+        if self.cfg.reannounce and not self.reannounced and (fl or nd is not None):
+            extra.append(("reannounce", 1))
         if fl:
             m.append(("deliver0", 0))
             m.append(("drop0", 1))
@@ -186,7 +228,7 @@ class AppSystem(object):
                 m.append(("timer", 1))
         elif nd is not None:
             m.append(("timer", 0))
-        return m
+        return m + extra if m else m
 
     def apply(self, label):
         self.steps += 1
@@ -214,6 +256,15 @@ class AppSystem(object):
             if nd is not None and nd > vclock.clock.now:
                 vclock.clock.now = nd
             _core.run_once()
+        elif label == "reannounce":
+            # the server device is reconfigured (e.g. restarted with a smaller buffer) and says so
+            self.reannounced = True
+            sd = dict(self.cfg.s)
+            sd.update(self.cfg.reannounce)
+            dev = self.server.localDevice
+            dev.maxApduLengthAccepted = sd["maxapdu"]
+            dev.segmentationSupported = sd["seg"]
+            self._send_iam(self.server, sd)
         elif label.startswith("answer"):
             try:
                 self.server.answer(int(label[6:]))
